@@ -298,6 +298,10 @@ def apply_op(idnt, op, log=None):
                     kw = {"preprocessing": steps}
                     if options is not None:
                         kw["preprocessing_options"] = options
+                    # further settings in the same call (the fitter may
+                    # refuse them after the pipeline has been applied)
+                    kw.update(materialise_fit_kw(op.get("fit_extra", {}),
+                                                 idnt))
                     PLAN.set_phase("fit_kw")
                     idnt.fit_model(**kw)
             elif kind == "fit":
@@ -914,6 +918,23 @@ class CurveEngineC03:
                                   "correct_force_offset",
                                   "correct_tip_offset"],
                         "options": None})
+        if ops and rng.random() < 0.2:
+            # before any fit: choose a model, look at the plateau scan,
+            # change one setting (which one rotates with the run index) -
+            # the scan shown afterwards belongs to the stored settings
+            ma = rng.choice(MODELS[:4])
+            ops.append({"op": "setfp", "key": "model_key", "value": ma})
+            ops.append({"op": "emod", "samples": rng.choice([5, 6])})
+            key = (["model_key"] + FIT_KEYS)[index % (len(FIT_KEYS) + 1)]
+            if key == "model_key":
+                ops.append({"op": "setfp", "key": "model_key",
+                            "value": rng.choice([m for m in MODELS[:4]
+                                                 if m != ma])})
+            else:
+                kw = gen_fit_kw(rng, nkeys=1, force_key=key)
+                ops.append({"op": "setfp", "key": key, "value": kw.get(key)})
+            if rng.random() < 0.5:
+                ops.append({"op": "emod"})
         if ops and rng.random() < 0.75:
             # directed prefix: fit, change exactly one thing (which one
             # rotates with the run index, so that every batch meets every
@@ -1463,6 +1484,27 @@ class CurveEngineC06:
                         rng.choice([m for m in POC_METHODS[:1]
                                     + POC_METHODS[4:] if m != cur])
                     op["route"] = rng.choice(["apply", "fit_kw"])
+            if not was_invalid and recent and rng.random() < 0.15 and \
+                    recent[-1]["steps"] != steps:
+                # the pipeline is changed in a fit_model call whose other
+                # settings the fitter refuses; afterwards the earlier
+                # pipeline is requested again
+                op["route"] = "fit_kw"
+                op["fit_extra"] = rng.choice([
+                    {"range_type": "nonsense"},
+                    {"range_x": [0, 1e-6, 2e-6]},
+                    {"model_key": "no_such_model"},
+                    {"x_axis": "no such column"},
+                    {"segment": 1.5},
+                    {"optimal_fit_edelta": True, "range_x": [1e-6, 2e-6]}])
+                ops.append(op)
+                recent.append(op)
+                op = copy.deepcopy(recent[-2])
+                for k_ in ("fault", "enum_faults", "fit_extra"):
+                    op.pop(k_, None)
+                op["route"] = rng.choice(["apply", "fit_kw", "details"])
+                ops.append(op)
+                continue
             if was_invalid and rng.random() < 0.4:
                 # what a user does next: fit on another axis (records the
                 # default, empty pipeline), then ask for the raw data
@@ -1960,6 +2002,19 @@ class CurveEngineC09:
                     "cp_edge": rng.choice([0.001, 0.002, 0.0005, 0.999,
                                            0.01, 1.0, 0.0])}}})
                 kw, ts = rng.choice(pool)
+                ops.append({"op": "rate", "kw": copy.deepcopy(kw),
+                            "ts": ts})
+            elif r < 0.485:
+                # rate, refit with other values of the same optimiser
+                # keywords, rate again with the same arguments
+                kw, ts = rng.choice(pool)
+                a, b = rng.sample([3, 5, 8, 300], 2)
+                mk = rng.choice(["max_nfev", "max_nfev", "ftol"])
+                va, vb = (a, b) if mk == "max_nfev" else (1e-2, 1e-12)
+                ops.append({"op": "fit", "kw": {"method_kws": {mk: va}}})
+                ops.append({"op": "rate", "kw": copy.deepcopy(kw),
+                            "ts": ts})
+                ops.append({"op": "fit", "kw": {"method_kws": {mk: vb}}})
                 ops.append({"op": "rate", "kw": copy.deepcopy(kw),
                             "ts": ts})
             elif r < 0.5:
@@ -2532,6 +2587,15 @@ def c10_new_object(what, spec, idnt):
         X, y = IndentationRater.load_training_set(path=_zef18_path())
         st = int(spec.get("step", 3))
         return (np.array(X[::st], copy=True), np.array(y[::st], copy=True))
+    if what == "weights":
+        from nanite.rate.rater import IndentationRater
+        X, y = IndentationRater.load_training_set(path=_zef18_path())
+        n = len(y[::int(spec.get("step", 3))])
+        rng = np.random.Generator(np.random.PCG64(int(spec.get("seed", 1))))
+        w = rng.random(n) * 10 + 0.1
+        if spec.get("as") == "list":
+            return [float(x) for x in w]
+        return w.astype(spec.get("dtype", "float64"))
     if what == "samples":
         rng = np.random.Generator(np.random.PCG64(int(spec.get("seed", 1))))
         return rng.random((int(spec.get("rows", 2)), 15))
@@ -2553,7 +2617,7 @@ def c10_apply(idnt, caller, op):
 
     def A(name, ref, **kw):
         obj = caller.arg(ref, idnt, **kw)
-        if isinstance(obj, (list, dict, np.ndarray)) or \
+        if isinstance(obj, (list, dict, np.ndarray, tuple)) or \
                 type(obj).__name__ == "Parameters":
             held_args.append((name, obj, enc_full(obj)))
         return obj
@@ -2649,6 +2713,20 @@ def c10_apply(idnt, caller, op):
                 out["ret"] = [digest_array(np.asarray(r[0])),
                               digest_array(np.asarray(r[1]))]
                 caller.hold(op["slot"], (r[0], r[1]), returned=True)
+            elif kind == "make_rater":
+                # the rater constructed directly, with the caller's own
+                # training set and sample weights
+                from nanite.rate import regressors
+                from nanite.rate.rater import IndentationRater
+                cls, rkw = regressors.reg_dict[op.get("regressor",
+                                                      "Decision Tree")]
+                ts = A("training_set", op["training_set"])
+                w = A("sample_weight", op["sample_weight"])
+                rater = IndentationRater(regressor=cls(**copy.deepcopy(rkw)),
+                                         training_set=ts, sample_weight=w)
+                X = np.random.Generator(np.random.PCG64(3)).random(
+                    (3, np.asarray(ts[0]).shape[1]))
+                out["ret"] = digest_array(np.asarray(rater.rate(samples=X)))
             elif kind == "rate_samples":
                 samples = A("samples", op["samples"])
                 rater = RATERS.get("Decision Tree")
@@ -2704,7 +2782,8 @@ def c10_gen_scenario(rng, sid):
     again."""
     kind = rng.choice(["params", "params", "init", "init", "steps",
                        "options", "method_kws", "range_x", "names",
-                       "force", "model", "samples", "trainset", "loadts"])
+                       "force", "model", "samples", "trainset", "loadts",
+                       "weights"])
     s = f"{kind}{sid}"
     extra = {}
     if rng.random() < 0.4:
@@ -2879,6 +2958,28 @@ def c10_gen_scenario(rng, sid):
                                  if c not in names])}})
         ops.append({"op": "rate", "args": {"regressor": "Decision Tree",
                                            "names": {"slot": s}}})
+    elif kind == "weights":
+        st = rng.choice([3, 4])
+        ops.append({"op": "new", "slot": s + "t", "what": "trainset",
+                    "spec": {"step": st}})
+        ops.append({"op": "new", "slot": s, "what": "weights",
+                    "spec": {"step": st, "seed": rng.randrange(100),
+                             "dtype": rng.choice(["float64", "float64",
+                                                  "float32"]),
+                             "as": rng.choice(["array", "array", "list"])}})
+        reg = rng.choice(["Decision Tree", "Extra Trees"])
+        ops.append({"op": "make_rater", "regressor": reg,
+                    "training_set": {"slot": s + "t"},
+                    "sample_weight": {"slot": s}})
+        ops.append({"op": "mutate", "slot": s, "edit": rng.choice([
+            {"kind": "array_scale", "factor": 2.0},
+            {"kind": "array_set", "index": rng.randrange(100),
+             "value": 50.0},
+            {"kind": "list_set", "index": rng.randrange(100),
+             "value": 50.0}])})
+        ops.append({"op": "make_rater", "regressor": reg,
+                    "training_set": {"slot": s + "t"},
+                    "sample_weight": {"slot": s}})
     elif kind == "loadts":
         # a training set read from disk is a returned object the caller may
         # edit; reading the same files again gives the same arrays
